@@ -96,8 +96,11 @@ def gen_session(rng, cmds, tier):
         if c.startswith(("MoveTo", "SetPlacemarker")):
             w = 2
         weights.append(w)
+    body = None
     for e in range(n_expr):
-        body = rng.choice(NAV_EXPRS) if rng.random() < 0.6 else X.gen(rng, 2)
+        # the same expression set again (byte for byte) is a new expression like any other: new ids, navigation state forgotten
+        if body is None or rng.random() > 0.35:
+            body = rng.choice(NAV_EXPRS) if rng.random() < 0.6 else X.gen(rng, 2)
         steps.append(("expr", X.math(body)))
         for _ in range(rng.randint(1, 14 if tier == "quick" else 40)):
             r = rng.random()
@@ -122,10 +125,13 @@ def placemarker_sessions(rng, tier):
             modes = ["Enhanced", "Simple", "Character"] if tier != "quick" else [rng.choice(["Enhanced", "Simple", "Character"])]
             for mode in modes:
                 k = rng.randint(0, 9)
+                e0 = X.math(rng.choice(NAV_EXPRS))
                 steps = [("pref", "Language", lang), ("pref", "NavVerbosity", verb), ("pref", "NavMode", mode),
-                         ("expr", X.math(rng.choice(NAV_EXPRS))), ("cmd", "ZoomIn"), ("cmd", "SetPlacemarker%d" % k), ("cmd", "MoveNext"),
+                         ("expr", e0), ("cmd", "ZoomIn"), ("cmd", "SetPlacemarker%d" % k), ("cmd", "MoveNext"),
                          ("cmd", rng.choice(["MoveNext", "ZoomIn", "MoveEnd"])), ("cmd", "MoveTo%d" % k), ("cmd", "MoveLastLocation"),
-                         ("cmd", "Read%d" % k), ("cmd", "Describe%d" % k), ("cmd", "MoveTo%d" % k), ("cmd", "MovePrevious"), ("cmd", "MoveLastLocation")]
+                         ("cmd", "Read%d" % k), ("cmd", "Describe%d" % k), ("cmd", "MoveTo%d" % k), ("cmd", "MovePrevious"), ("cmd", "MoveLastLocation"),
+                         # the same expression set again: its marks are gone like those of any other expression
+                         ("expr", e0), ("cmd", "ZoomIn"), ("cmd", "MoveTo%d" % k), ("cmd", "Read%d" % k), ("cmd", "MoveNext")]
                 out.append(steps)
     return out
 
@@ -347,24 +353,132 @@ def property_oracle(res, traces):
     return nv
 
 
+KEYS = [37, 38, 39, 40, 13, 32, 36, 35, 8] + list(range(48, 58))
+KEY_CMDS = ["MovePrevious", "MoveCellPrevious", "ReadPrevious", "DescribePrevious", "MoveNext", "MoveCellNext", "ReadNext", "DescribeNext", "ZoomOut", "MoveCellUp",
+            "ToggleZoomLockUp", "ZoomOutAll", "ZoomIn", "MoveCellDown", "ToggleZoomLockDown", "ZoomInAll", "WhereAmI", "WhereAmIAll", "ReadCurrent", "ReadCellCurrent",
+            "ToggleSpeakMode", "DescribeCurrent", "MoveStart", "MoveLineStart", "MoveColumnStart", "MoveEnd", "MoveLineEnd", "MoveColumnEnd", "MoveLastLocation"] + \
+           [c + str(d) for d in range(10) for c in ("MoveTo", "SetPlacemarker", "Read", "Describe")]
+KEY_SCENARIOS = [
+    ("<mrow><mi>a</mi><mo>+</mo><mi>b</mi><mo>+</mo><mfrac><mi>c</mi><mi>d</mi></mfrac><mo>=</mo><mn>7</mn></mrow>", ["ZoomIn", "SetPlacemarker3", "MoveNext", "MoveNext"]),
+    ("<mrow><mo>(</mo><mtable><mtr><mtd><mn>1</mn></mtd><mtd><mn>2</mn></mtd></mtr><mtr><mtd><mn>3</mn></mtd><mtd><mn>4</mn></mtd></mtr></mtable><mo>)</mo></mrow>",
+     ["ZoomIn", "ZoomIn", "ZoomIn", "SetPlacemarker3", "MoveNext"]),
+]
+
+
+def key_observations(res):
+    """Gen/C11KeyObs.v: what each key press (every key of the table x Ctrl x Shift) and each navigation command does after
+    the same prelude: outcome, speech, position, position after a following MoveTo3"""
+    def session(sc, op):
+        body, prelude = KEY_SCENARIOS[sc]
+        return [["set_rules_dir", C.RULES], ["set_mathml", X.math(body)]] + [["do_navigate_command", c] for c in prelude] + \
+               [op, ["v_nav_state"], ["do_navigate_command", "MoveTo3"], ["v_nav_state"]]
+    ss, meta = [], []
+    for sc in range(len(KEY_SCENARIOS)):
+        for k in KEYS:
+            for ctrl in (False, True):
+                for shift in (False, True):
+                    ss.append({"id": len(ss), "ops": session(sc, ["do_navigate_keypress", k, shift, ctrl, False, False])})
+                    meta.append(("key", sc, k, ctrl, shift))
+        for c in KEY_CMDS:
+            ss.append({"id": len(ss), "ops": session(sc, ["do_navigate_command", c])})
+            meta.append(("cmd", sc, c))
+    out = C.run_harness(ss)
+
+    def result(r, sc):
+        rs = r.get("res") or []
+        n = 2 + len(KEY_SCENARIOS[sc][1])
+        if len(rs) < n + 4:
+            return (3, "", 0, 0)
+        ids = ids_of(C.norm_ids(rs[1].get("ok", "")))
+        x = rs[n]
+
+        def pos(st):
+            ps = (st.get("ok") or {}).get("ps") or []
+            i = C.norm_ids(ps[-1][0]) if ps else None
+            return (ids.index(i) + 1) if i in ids else 0
+        status = 0 if "ok" in x else 2 if "panic" in x else 1
+        return (status, x.get("ok", "") if status == 0 else "", pos(rs[n + 1]), pos(rs[n + 3]))
+    key_items, cmd_items, rows = [], [], []
+    for m, r in zip(meta, out):
+        st, sp, p1, p2 = result(r, m[1])
+        t = "(%d, %s, %d, %d)" % (st, cstr(sp), p1, p2)
+        if m[0] == "key":
+            key_items.append("(%d, %d, %s, %s, %s)" % (m[1], m[2], "true" if m[3] else "false", "true" if m[4] else "false", t))
+        else:
+            cmd_items.append("(%d, %s, %s)" % (m[1], cstr(m[2]), t))
+        rows.append((m, (st, sp, p1, p2)))
+    body = HEADER + "Definition key_obs : list (N * N * bool * bool * (N * list N * N * N)) := " + clist(key_items) + ".\n" + \
+        "Definition cmd_obs : list (N * list N * (N * list N * N * N)) := " + clist(cmd_items) + ".\n"
+    C.write_if_changed(os.path.join(C.GEN, "C11KeyObs.v"), body)
+    res.extra["key_tie"] = {"key_presses": len(key_items), "commands": len(cmd_items), "scenarios": len(KEY_SCENARIOS)}
+    for m, r in rows:
+        res.add_case(("key-tie",) + tuple(m), nontrivial=(r[0] == 0))
+    return rows
+
+
+def key_search(res, rows):
+    """when the key tie breaks: the documented cell whose key press does something else than its command"""
+    doc = {}
+    for k, cells in ((37, ["MovePrevious", "MoveCellPrevious", "ReadPrevious", "DescribePrevious"]), (39, ["MoveNext", "MoveCellNext", "ReadNext", "DescribeNext"]),
+                     (38, ["ZoomOut", "MoveCellUp", "ToggleZoomLockUp", "ZoomOutAll"]), (40, ["ZoomIn", "MoveCellDown", "ToggleZoomLockDown", "ZoomInAll"]),
+                     (13, ["WhereAmI", "WhereAmIAll", None, None]), (32, ["ReadCurrent", "ReadCellCurrent", "ToggleSpeakMode", "DescribeCurrent"]),
+                     (36, ["MoveStart", "MoveLineStart", "MoveColumnStart", None]), (35, ["MoveEnd", "MoveLineEnd", "MoveColumnEnd", None]), (8, ["MoveLastLocation", None, None, None])):
+        for (ctrl, shift), c in zip(((False, False), (True, False), (False, True), (True, True)), cells):
+            if c:
+                doc[(k, ctrl, shift)] = c
+    for d in range(10):
+        for (ctrl, shift), c in zip(((False, False), (True, False), (False, True), (True, True)), ("MoveTo", "SetPlacemarker", "Read", "Describe")):
+            doc[(48 + d, ctrl, shift)] = c + str(d)
+    cmd = {(m[1], m[2]): r for m, r in rows if m[0] == "cmd"}
+    n = 0
+    for m, r in rows:
+        if m[0] != "key" or (m[2], m[3], m[4]) not in doc:
+            continue
+        c = doc[(m[2], m[3], m[4])]
+        if cmd.get((m[1], c)) != r:
+            body, prelude = KEY_SCENARIOS[m[1]]
+            res.violation("key %d%s%s is documented as %s but after %r it gives %r where the command gives %r (outcome, speech, position, position after MoveTo3)"
+                          % (m[2], " + Ctrl" if m[3] else "", " + Shift" if m[4] else "", c, prelude, r, cmd.get((m[1], c))),
+                          {"kind": "key", "mathml": X.math(body), "prelude": prelude, "key": [m[2], m[4], m[3]], "command": c})
+            n += 1
+            if n >= 3:
+                break
+    return n
+
+
 def run(res):
     res.rule = ("seeded sessions: NavMode/Overview/AutoZoomOut prefs, 1-3 expressions (fixed navigation corpus + textbook generator), "
                 "1-14 (thorough 1-40) steps each drawn from all NAV_COMMANDS (weighted towards Move/Zoom/MoveLastLocation/markers), "
                 "set_navigation_node with valid/invalid ids and offsets; non-trivial = distinct (command, last three history commands, moved?) with an Ok result")
     cmds, traces = generate(res)
+    key_rows = key_observations(res)
 
     def on_broken(log):
-        return property_oracle(res, traces) > 0
-    proved = C.check_proofs(res, "C11", ["Props/C11.vo", "Tie/C11Tie.vo"], "Props/C11.v", search=on_broken)
+        return property_oracle(res, traces) + (key_search(res, key_rows) if "KeyMapTie" in log else 0) > 0
+    proved = C.check_proofs(res, "C11", ["Props/C11.vo", "Tie/C11Tie.vo", "Tie/KeyMapTie.vo"], "Props/C11.v", search=on_broken)
     if proved:
         property_oracle(res, traces)
     res.trusted += ["navigation rules (navigate.yaml + XPath): an oracle in the model; their outcomes are taken from the hook log in the tie"]
     res.assumptions += ["[out_ok]: the rules name a node of the expression or the 'not set' id (checked on every logged outcome by the tie through the predicted stacks)",
-                        "key-press decoding (do_navigate_keypress) is not modelled"]
+                        "key-press decoding: the documented key table (Model/KeyMap.v, written from docs/nav-commands.md) is tied cell by cell: a key press does what its command does (Tie/KeyMapTie.v)"]
 
 
 def replay(path):
     rep = json.load(open(path, encoding="utf-8"))
+    if rep.get("kind") == "key":
+        C.build_harness()
+        pre = [["set_mathml", rep["mathml"]]] + [["do_navigate_command", c] for c in rep["prelude"]]
+        k = rep["key"]
+        a = C.one_session(pre + [["do_navigate_keypress", k[0], k[1], k[2], False, False], ["v_nav_state"], ["do_navigate_command", "MoveTo3"], ["v_nav_state"]])["res"]
+        b = C.one_session(pre + [["do_navigate_command", rep["command"]], ["v_nav_state"], ["do_navigate_command", "MoveTo3"], ["v_nav_state"]])["res"]
+        na, nb = C.norm_ids_deep(a[len(pre):]), C.norm_ids_deep(b[len(pre):])
+        for x in na[-4:]:
+            x.get("ok", {}).pop("log", None) if isinstance(x.get("ok"), dict) else None
+        for x in nb[-4:]:
+            x.get("ok", {}).pop("log", None) if isinstance(x.get("ok"), dict) else None
+        print(json.dumps(na, ensure_ascii=False)[:500])
+        print(json.dumps(nb, ensure_ascii=False)[:500])
+        return 0 if na == nb else 1
     ok, log = C.build_harness()
     if not ok:
         print("harness build failed", log)
